@@ -125,6 +125,7 @@ func init() {
 	}})
 	strAssume := []string{"String domain: []byte/string are SMT-LIB strings (one code point per byte); base64 is an uninterpreted codec with dec(enc(x))=x, enc(x) free of CR/LF, enc(x)=\"\" iff x=\"\"", "bufio.Reader.ReadLine contract (4096-byte buffer; bodies bounded to 4000 bytes so the isPrefix case is outside the claim)", "strings.Split / proof line loops bounded by k"}
 	reg(&checkSpec{ID: "C11", Assumptions: strAssume, Runs: []runSpec{
+		{Harness: pkgBastion + ".VerifParseBodyHashLengths", Domain: sym.DomString, Solver: sym.CVC5, Quick: p("maxhash", 64), Thorough: p("maxhash", 64), Covers: []string{"parse/lengths-roundtrip"}},
 		{Harness: pkgBastion + ".VerifParseBodyRoundTrip", Domain: sym.DomString, Solver: sym.CVC5, Quick: p("k", 8), Thorough: p("k", 64), Unwind: 200, Covers: []string{"parse/roundtrip-with-proof"}},
 		{Harness: pkgBastion + ".VerifParseBodyRefusal", Domain: sym.DomString, Solver: sym.CVC5, Quick: p("k", 2), Thorough: p("k", 4), Unwind: 4, CutOnUnwind: true, Covers: []string{"parse/accepts-one-proof-line", "parse/refuses"}},
 		{Harness: pkgWitness + ".VerifProofRoundTrip", Domain: sym.DomString, Solver: sym.CVC5, Quick: p("k", 8, "maxsplit", 10), Thorough: p("k", 64, "maxsplit", 66), Unwind: 200, Covers: []string{"proof/roundtrip-two"}},
@@ -269,7 +270,14 @@ func cmdCheck(args []string) int {
 		}
 		cfg := &sym.RunConfig{Harness: r.Harness, Domain: r.Domain, Solver: r.Solver, Props: map[string]bool{id: true}, Params: params, Known: myKnown, Unwind: r.Unwind, TimeoutMs: r.TimeoutMs, CutOnUnwind: r.CutOnUnwind}
 		if tier == "thorough" && cfg.TimeoutMs == 0 {
-			cfg.TimeoutMs = 300000
+			cfg.TimeoutMs = 200000
+		}
+		if cfg.TimeoutMs == 0 {
+			cfg.TimeoutMs = 20000
+		}
+		cfg.MaxWallSec = 180
+		if tier == "thorough" {
+			cfg.MaxWallSec = 3000
 		}
 		if wk := os.Getenv("WSYM_WORKERS"); wk != "" {
 			cfg.Workers, _ = strconv.Atoi(wk)
@@ -293,7 +301,7 @@ func cmdCheck(args []string) int {
 			inconclusive = append(inconclusive, short(r.Harness)+": "+u)
 		}
 		if rep.Truncated {
-			inconclusive = append(inconclusive, short(r.Harness)+": path budget exhausted")
+			inconclusive = append(inconclusive, short(r.Harness)+": path or time budget exhausted before all paths were explored")
 		}
 		for _, v := range rep.Violations {
 			// violations of other properties' assertions cannot occur (their monitors are not armed);
@@ -453,7 +461,7 @@ func cmdCheck(args []string) int {
 	default:
 		ev.Verdict = "holds-within-bounds"
 	}
-	if strings.HasPrefix(id, "C") {
+	if strings.HasPrefix(id, "C") && os.Getenv("WSYM_NO_EVIDENCE") == "" {
 		os.MkdirAll(filepath.Join(root, "evidence"), 0o755)
 		b, _ := json.MarshalIndent(ev, "", " ")
 		if err := os.WriteFile(filepath.Join(root, "evidence", id+".json"), b, 0o644); err != nil {
